@@ -48,7 +48,7 @@ fn hdr_flat_body<const FULL: bool>(covers: fn(&RefHeader, usize, usize, &[u8; WI
     let r = it.verif_peek_valid_tag_header();
 
     // C04b-style post-state: the logical stream position and the bytes behind it are unchanged
-    assert!(it.verif_current_offset() == pos, "C03a: peeking does not move the read position");
+    assert!(it.verif_current_offset() == pos, "C03/C04a: peeking does not move the read position");
     assert!(it.verif_fill() - it.verif_cursor() == avail, "C04a: peeking neither gains nor loses buffered bytes at EOF");
 
     match want {
@@ -56,11 +56,11 @@ fn hdr_flat_body<const FULL: bool>(covers: fn(&RefHeader, usize, usize, &[u8; WI
             Err(e) => {
                 let k = kind_of(e);
                 assert!(!matches!(k, ErrKind::InvalidTagId { .. } | ErrKind::InvalidTagData { .. } | ErrKind::Hierarchy { .. } | ErrKind::Oversized { .. } | ErrKind::InvalidTagSize { .. }),
-                    "C12a: a merely truncated header is never reported as corruption");
+                    "C12/C04a: a merely truncated header is never reported as corruption");
                 assert!(matches!(k, ErrKind::Eof { tag_start, tag_id, tag_size: None, has_partial: false } if tag_start == pos && tag_id == id),
-                    "C12a: EOF error: start == offset of the incomplete tag, id present iff id bytes complete, no size");
+                    "C12/C04a: EOF error: start == offset of the incomplete tag, id present iff id bytes complete, no size");
             }
-            Ok(_) => assert!(false, "C12a: incomplete header must not be accepted (stale bytes beyond the fill level were parsed)"),
+            Ok(_) => assert!(false, "C12/C04a: incomplete header must not be accepted (stale bytes beyond the fill level were parsed)"),
         },
         RefHeader::BadId => {
             // a zero first byte cannot start any element id: never accepted as a specification element
@@ -86,15 +86,15 @@ fn hdr_flat_body<const FULL: bool>(covers: fn(&RefHeader, usize, usize, &[u8; WI
             let numeric_bad = is_numeric(ty) && !matches!(size, RefSize::Known(s) if s <= 8);
             match &r {
                 Ok((rid, rty, rsize, rhl)) => {
-                    assert!(*rid == id && *rhl == hl, "C03a: accepted header has the id and length found at the offset");
-                    assert!(*rty == ty, "C03a: accepted header carries the specification's type for the id");
+                    assert!(*rid == id && *rhl == hl, "C03/C04a: accepted header has the id and length found at the offset");
+                    assert!(*rty == ty, "C03/C04a: accepted header carries the specification's type for the id");
                     match size {
-                        RefSize::Known(s) => assert!(*rsize == EBMLSize::Known(s as usize), "C03a: accepted header carries the declared size"),
-                        RefSize::Unknown => assert!(*rsize == EBMLSize::Unknown, "C03a: all-ones size field means unknown size"),
+                        RefSize::Known(s) => assert!(*rsize == EBMLSize::Known(s as usize), "C03/C04a: accepted header carries the declared size"),
+                        RefSize::Unknown => assert!(*rsize == EBMLSize::Unknown, "C03/C04a: all-ones size field means unknown size"),
                     }
                     assert!(*rhl >= 2 && *rhl <= avail, "C05a: accepted header is >= 2 bytes and lies within the available bytes");
                     assert!(!f_id, "C13: unknown id accepted although unknown ids are not tolerated");
-                    assert!(!f_limit, "C17a: declared size above the limit accepted");
+                    assert!(!f_limit, "C13/C17a: declared size above the limit accepted (the limit stays in force under every tolerance setting)");
                     assert!(!numeric_bad, "C05a: numeric element with size > 8 / unknown accepted");
                 }
                 Err(e) => {
